@@ -285,6 +285,112 @@ func vfC03CheckDelivered(io *vfC03IO, dialAddr, wantAddr string, want []byte) er
 	return nil
 }
 
+func (c *vfC03Conn) writeCount() int {
+	c.mu.Lock()
+	defer c.mu.Unlock()
+	return len(c.writes)
+}
+
+// vfC03ServerAggregate: COMPLETE well-formed fragment sets with large totals (around 4096, 8 KiB,
+// 64 KiB, 255 x 1200/1400) into the sessions of one manager per group of sets, then the canary;
+// and floods of sessions. push hands one raw datagram to the manager (feed or Run) and returns
+// true if the calling goroutine panicked.
+func vfC03ServerAggregate(k *vfKit, r *vfC03Run, entry string, mk func(id string) (io *vfC03IO, push func(seqID string, d []byte) bool, done func(seqID string))) {
+	sets := vfC03AggregateSets(k.Rand("aggregate"), k.N(20, 1200))
+	var io *vfC03IO
+	var push func(string, []byte) bool
+	var done func(string)
+	var sid uint32
+	var dial string
+	for i, set := range sets {
+		id := fmt.Sprintf("agg-%d", i)
+		if r.SkipSeq(id) {
+			continue
+		}
+		if io == nil || i%6 == 0 || k.ReplayCase() != "" {
+			if done != nil {
+				done(r.SeqID(id))
+			}
+			io, push, done = mk(id)
+			sid = uint32(0x60000000 + i)
+			dial = ""
+		}
+		if i%3 == 2 { // every third set on a session of its own
+			sid, dial = uint32(0x60000000+i), ""
+		}
+		addr := fmt.Sprintf("ok-agg-%d.verif:53", i)
+		if dial == "" {
+			dial = addr
+		}
+		parts, whole := vfC03SetPayloads(set, uint32(i))
+		pid := uint16(1 + i%0x6000)
+		before := 0
+		if c := io.conn(dial); c != nil {
+			before = c.writeCount()
+		}
+		for _, f := range set.Order {
+			if push(r.SeqID(id), vfC03Datagram(sid, pid, uint8(f), uint8(len(set.Sizes)), addr, parts[f])) {
+				return
+			}
+		}
+		k.Count("ev_aggregate_sets", 1)
+		k.Count("aggregate_bytes", int64(set.Total))
+		if c := io.conn(dial); c != nil && c.writeCount() > before {
+			k.Count("ev_aggregate_delivered", 1)
+			w, _ := c.lastWrite()
+			if c.writeCount() != before+1 || !bytes.Equal(w.data, whole) || w.addr != addr {
+				r.ServiceStopped(entry, r.SeqID(id), map[string]any{"set": set.Label, "total": set.Total},
+					"complete fragment set %s: outbound socket got %d writes, last %d bytes to %q, want one write of the %d-byte message to %q", set.Label, c.writeCount()-before, len(w.data), w.addr, len(whole), addr)
+			}
+		}
+		if i%3 == 1 || i == len(sets)-1 {
+			caddr := fmt.Sprintf("ok-aggc-%d.verif:53", i)
+			payload := []byte(fmt.Sprintf("c03 canary after aggregate set %d", i))
+			r.Canary(entry, r.SeqID(id), map[string]any{"after": set.Label}, func() error {
+				if push(r.SeqID(id), vfC03Datagram(uint32(0x68000000+i), 0, 0, 1, caddr, payload)) {
+					return errors.New("panicked")
+				}
+				return vfC03CheckDelivered(io, caddr, caddr, payload)
+			})
+		}
+		if i == 12 {
+			k.Sample(map[string]any{"aggregate_set": set.Label, "fragments": len(set.Sizes), "total_bytes": set.Total, "arrivals": len(set.Order)})
+		}
+	}
+	if done != nil {
+		done(r.SeqID("agg-end"))
+	}
+
+	// number of sessions: thousands of session ids, half of them with a whole message (socket +
+	// receive loop each), half with a first fragment only (entry without socket)
+	id := "sessions-flood"
+	if r.SkipSeq(id) {
+		return
+	}
+	io, push, done = mk(id)
+	n := k.N(2000, 20000)
+	for j := 0; j < n; j++ {
+		var d []byte
+		if j%2 == 0 {
+			d = vfC03Datagram(uint32(0x70000000+j), 0, 0, 1, fmt.Sprintf("ok-flood-%d.verif:53", j%50), []byte{byte(j)})
+		} else {
+			d = vfC03Datagram(uint32(0x70000000+j), 9, 0, 200, "ok-flood.verif:53", []byte{byte(j)})
+		}
+		if push(r.SeqID(id), d) {
+			return
+		}
+	}
+	k.Count("ev_flood_sessions", int64(n))
+	r.Canary(entry, r.SeqID(id), map[string]any{"sessions_open": n}, func() error {
+		payload := []byte("c03 canary after the session flood")
+		if push(r.SeqID(id), vfC03Datagram(0x7fffffff, 0, 0, 1, "ok-after-flood.verif:53", payload)) {
+			return errors.New("panicked")
+		}
+		return vfC03CheckDelivered(io, "ok-after-flood.verif:53", "ok-after-flood.verif:53", payload)
+	})
+	done(r.SeqID(id))
+}
+
 func TestVerifC03ServerFeed(t *testing.T) {
 	k := vfNewKit(t, "C03", "srv-feed")
 	defer k.Finish()
@@ -371,6 +477,26 @@ func TestVerifC03ServerFeed(t *testing.T) {
 			k.Sample(map[string]any{"sequence": id, "datagrams": steps, "sessions_opened": io.news})
 		}
 	}
+
+	vfC03ServerAggregate(k, r, entry, func(id string) (*vfC03IO, func(string, []byte) bool, func(string)) {
+		io := vfC03NewIO()
+		m := newUDPSessionManager(io, vfC03Logger{io}, time.Hour)
+		r.NewObject("udpSessionManager, aggregate workload from " + id)
+		push := func(seqID string, d []byte) bool {
+			return r.DoObj(entry, seqID, d, func(b []byte) {
+				if msg, err := protocol.ParseUDPMessage(b); err == nil {
+					m.feed(msg)
+				}
+			})
+		}
+		done := func(seqID string) {
+			m.cleanup(false)
+			if c := m.Count(); c != 0 {
+				r.ServiceStopped(entry, seqID, map[string]any{"left": c}, "cleanup left %d sessions in the table", c)
+			}
+		}
+		return io, push, done
+	})
 }
 
 // vfC03ReplyCase: payload length / address length / datagram limit (has=false: no limit error at all)
@@ -645,4 +771,34 @@ func TestVerifC03ServerRun(t *testing.T) {
 			k.Sample(map[string]any{"sequence": id, "raw_datagrams": steps, "sessions_opened": io.news})
 		}
 	}
+
+	vfC03ServerAggregate(k, r, entry, func(id string) (*vfC03IO, func(string, []byte) bool, func(string)) {
+		io := vfC03NewIO()
+		m := newUDPSessionManager(io, vfC03Logger{io}, time.Hour)
+		r.NewObject("udpSessionManager.Run, aggregate workload from " + id)
+		runDone := make(chan error, 1)
+		go func() { runDone <- m.Run() }()
+		<-io.entered
+		push := func(seqID string, d []byte) bool {
+			if r.Dead(entry) {
+				return true
+			}
+			r.Log(entry, d, false)
+			k.Eval()
+			k.Count("ev_inputs", 1)
+			k.Count("in:"+entry, 1)
+			k.Nontrivial(entry + "|" + string(d))
+			io.rx <- vfExact(d)
+			<-io.entered
+			return false
+		}
+		done := func(seqID string) {
+			io.Close()
+			<-runDone
+			if c := m.Count(); c != 0 {
+				r.ServiceStopped(entry, seqID, map[string]any{"left": c}, "Run left %d sessions in the table on exit", c)
+			}
+		}
+		return io, push, done
+	})
 }
